@@ -423,7 +423,7 @@ pub fn check(ctx: &Ctx) -> Vec<PartReport> {
             require: vec![],
         },
     ));
-    let n = ctx.cases(6_000, 80_000);
+    let n = ctx.cases(12_000, 80_000);
     out.push(run_part(
         ctx,
         PartSpec {
@@ -434,7 +434,7 @@ pub fn check(ctx: &Ctx) -> Vec<PartReport> {
             require: vec![("has-failed-cycle", n as u64 / 10), ("rollback-refused", n as u64 / 10), ("lower-version-offered", n as u64 / 4)],
         },
     ));
-    let n2 = ctx.cases(8_000, 120_000);
+    let n2 = ctx.cases(16_000, 120_000);
     out.push(run_part(
         ctx,
         PartSpec {
